@@ -1,4 +1,7 @@
-"""Per-property configuration of ./check (which harness binary, which driver, which theorem modules)."""
+"""Per-property configuration of ./check: one JSON file per claimed property in config/."""
+import glob, json, os
+
+ROOT = os.path.dirname(os.path.abspath(__file__))
 
 COMMON_TRUSTED = [
     "Lean 4.33 kernel (thorough tier: re-checked by leanchecker)",
@@ -9,23 +12,7 @@ COMMON_TRUSTED = [
     "contracts run natively (no wasm32 target in the sandbox)",
 ]
 
-PROPS = {
-    "C01": dict(
-        bin="c01", drv="drv_c01", drv_module="OZ.Drv.C01", props=["OZ.Props.C01"],
-        shards=dict(quick=1, thorough=8),
-        trusted=["temporary-entry TTL semantics of the host as modelled in OZ/Model/Host.lean (read from soroban-env-host 25.0.1)",
-                 "flavours other than Base (allow/block-list, capped, pausable, votes, vault shares, RWA) reach balances only "
-                 "through Base::update (by reading); their wiring is exercised by the C04/C05/C13/C16 correspondences"],
-        assumptions=["accounts mentioned by the operations lie in a duplicate-free universe U; all other balances are 0"],
-    ),
-    "C12": dict(
-        bin="c12", drv="drv_c12", drv_module="OZ.Drv.C12", props=["OZ.Props.C12"], unit="op",
-        shards=dict(quick=1, thorough=6),
-        rule="every op is one call of the real mul_div / checked_mul_div (i128, I256) or Wad function: the boundary "
-             "lattice cube (seeded 1/6 sample in quick, complete in thorough) plus random operands stratified by bit "
-             "length and engineered so that quotients sit at the i128 boundary; distinct_nontrivial counts distinct "
-             "ops whose result is a value (not an error)",
-        trusted=["host I256 arithmetic (mul/div/rem_euclid/add/sub trap on overflow) as modelled in OZ/Model/MulDiv.lean"],
-        assumptions=["operands of the i128 functions range over all of i128; I256 theorems assume the product fits in 256 bits, as the property states"],
-    ),
-}
+PROPS = {}
+for path in sorted(glob.glob(os.path.join(ROOT, "config", "C*.json"))):
+    pid = os.path.basename(path)[:-5]
+    PROPS[pid] = json.load(open(path))
